@@ -30,6 +30,23 @@ def cheap(h):
     return kw
 
 
+def select_backend(run, name, backend):
+    """-> True if the shard can proceed (backend None = the default one)"""
+    if not backend:
+        return True
+    h = H.get(name)
+    try:
+        if not h.has_backend(backend):
+            run.count("backend_unavailable")
+            return False
+        h.set_backend(backend)
+        run.count(f"under_backend:{backend}")
+        return True
+    except Exception:
+        run.count("backend_unavailable")
+        return False
+
+
 def build(width, nbytes, rng):
     """text whose utf-8 encoding has exactly nbytes bytes, made of `width`-byte characters, padded with ascii
     at a random side so that the limit can fall inside/at/after a character"""
@@ -43,8 +60,10 @@ def build(width, nbytes, rng):
     return pad + body if rng.random() < 0.5 else body + pad
 
 
-def trunc_cases(run, name):
+def trunc_cases(run, name, backend=None):
     import passlib.exc as X
+    if not select_backend(run, name, backend):
+        return
     from passlib.context import CryptContext
     rng = run.rng("trunc:" + name)
     h = H.get(name)
@@ -136,13 +155,32 @@ def trunc_cases(run, name):
                                         checks.append(("last-significant-byte-changed", bytes(alt2) + raw[limit:], False))
                                     if nb > limit and (sig[-1] & 0x7F):   # (a dropped byte whose low 7 bits are 0 equals the NUL padding of the DES formats)
                                         checks.append(("shorter-than-limit", sig[:-1], False))
+                                if name != "lmhash" and width > 1 and nb >= limit:
+                                    # a whole character changed at the limit (the probe stays valid text, which some backends need):
+                                    # the character holding byte limit-1 is replaced by another of the same width
+                                    off = 0
+                                    for ci, chh in enumerate(text):
+                                        wch = len(chh.encode("utf-8"))
+                                        if off <= limit - 1 < off + wch:
+                                            for repl in ("z", "é", "ü", "€", "中", "\U0001f600", "\U0001f601", "q", "ö", "日"):
+                                                if len(repl.encode("utf-8")) == wch and repl != chh:
+                                                    alt_raw = (text[:ci] + repl + text[ci + 1:]).encode("utf-8")
+                                                    checks.append(("character-at-limit-changed", alt_raw, alt_raw[:limit] == raw[:limit]))
+                                            break
+                                        off += wch
                                 for label, probe, expect in checks:
                                     if name == "lmhash":
                                         try:
                                             probe = probe.decode("cp437")   # lmhash folds case on text only
                                         except UnicodeError:
                                             continue
-                                    got = vfy(probe, hs, **({"encoding": "cp437"} if name == "lmhash" and kind is None else {}))
+                                    try:
+                                        got = vfy(probe, hs, **({"encoding": "cp437"} if name == "lmhash" and kind is None else {}))
+                                    except X.PasswordValueError:
+                                        if backend == "os_crypt" and "bcrypt" in name and not H.is_utf8(probe):
+                                            run.count("os_crypt_non_utf8_probe_refused")   # bcrypt's os_crypt backend refuses non-UTF-8 bytes (finding of C03); not a truncation question
+                                            continue
+                                        raise
                                     run.trivial()
                                     if got is not expect:
                                         run.violation(f"C05|{name}|limit-bytes|{label}|expected-{expect}",
@@ -277,11 +315,13 @@ def max_size(run, names):
                     run.violation(f"C05|context|{op}|max-size|expected-raise-{expect}", f"CryptContext.{op} with a {ln}-byte password: raised={raised}", dict(scheme=scheme, op=op, length=ln))
 
 
-def nul_cases(run, names):
+def nul_cases(run, names, backend=None):
     for name in names:
         rng = run.rng("nul:" + name)
         h = H.get(name)
         if not H.usable(name):
+            continue
+        if backend and (backend not in getattr(h, "backends", ()) or not select_backend(run, name, backend)):
             continue
         hh = H.apply(h, cheap(h))
         body = H.pw_bytes(rng, 130, "ascii")
@@ -310,13 +350,15 @@ def nul_cases(run, names):
                                       repro=f"import passlib.hash as H\nprint(H.{name}.hash({pw!r}))")
 
 
-def nul_verify(run, names):
+def nul_verify(run, names, backend=None):
     """a password containing NUL is refused on the verify path as well (hasher and context), never compared"""
     from passlib.context import CryptContext
     for name in names:
         rng = run.rng("nulv:" + name)
         h = H.get(name)
         if not H.usable(name):
+            continue
+        if backend and (backend not in getattr(h, "backends", ()) or not select_backend(run, name, backend)):
             continue
         hh = H.apply(h, cheap(h))
         good = hh.hash("pass")
@@ -345,11 +387,20 @@ def body(run):
     shards += [("max_size", dict(names=names[i::6])) for i in range(6)]
     shards += [("nul_cases", dict(names=CRYPT_NUL[i::3])) for i in range(3)]
     shards += [("nul_verify", dict(names=CRYPT_NUL[i::3])) for i in range(3)]
+    # the same under every other backend of the multi-backend formats (the OS crypt() and the pure-python code cut and
+    # scan the password themselves)
+    for b in ("os_crypt", "builtin"):
+        shards += [("trunc_cases", dict(name=n, backend=b)) for n in TRUNC if b in getattr(H.get(n), "backends", ())
+                   and not (b == "builtin" and "bcrypt" in n and (run.tier == "quick" or n != "bcrypt"))]      # (pure-python bcrypt: ~0.3 s per hash)
+        shards += [("nul_cases", dict(names=CRYPT_NUL[i::3], backend=b)) for i in range(3)]
+        shards += [("nul_verify", dict(names=CRYPT_NUL[i::3], backend=b)) for i in range(3)]
     by = {}
     for f, a in shards:
         by.setdefault(f, []).append(a)
     for f, al in by.items():
-        run.parallel("checks.c05", f, al, timeout=900 if run.tier == "quick" else 3600)
+        run.parallel("checks.c05", f, al, timeout=900 if run.tier == "quick" else 3600, env={"PASSLIB_BUILTIN_BCRYPT": "1"})
+    run.require("under_backend:os_crypt", 4)
+    run.require("under_backend:builtin", 4)
     for n in TRUNC + CISCO:
         run.require(f"trunc:{n}", 20)
     for s in ("hasher.using", "context-wide", "context-scheme"):
